@@ -496,7 +496,11 @@ def c09(a):
               "The text (as byte values) is read by the independent RFC 3339 / RFC 9557 reader of Rfc3339.tla; the decoded "
               "value must be the original (to the precision), the printed offset the true offset rounded to the minute, the "
               "annotation the zone, the civil time + zone + printed offset must determine exactly the original instant, and "
-              "jiff's own re-parse must return the same instant, fields, offset and zone.")
+              "jiff's own re-parse must return the same instant, fields, offset and zone. rd_ts / rd_dt: texts generated from "
+              "the RFC 3339 grammar (not by jiff's printer: 'T' / 't' / blank, 'Z' / 'z' / numeric offsets, 0..9 fraction "
+              "digits, four-digit and signed six-digit years) are read by the reader and by parse_timestamp / parse_datetime, "
+              "which must return exactly what the text denotes or refuse it when it is out of range; shapes no printer option "
+              "produces are scope 'beyond' (reported, never a violation).")
     c.assumptions = TRUSTED + ["the harness's independent TZif reader", "the global tz database (system zoneinfo) for re-parsing zone names"]
     return c.finish()
 
@@ -518,7 +522,10 @@ def c15(a):
               "unit), lossy ones a value closer than one unit of the last printed digit (digits counted in the text).")
     c.rule += (" fr_parse: texts drawn from the documented grammar (every label spelling, blank and comma variants, "
                "fractions with '.' or ',', clocks, sign or 'ago') are read by Friendly.tla and by jiff's parser, which must "
-               "return the units the text states (a fraction truncated toward zero), and refuse calendar units for a SignedDuration.")
+               "return the units the text states (a fraction truncated toward zero), and refuse calendar units for a SignedDuration."
+               " iso_parse: the same for ISO 8601 durations drawn from the grammar (either case, fractions on the last time unit, "
+               "values around every unit limit). Shapes no printer configuration produces are scope 'beyond' (reported as "
+               "BEYOND-PROPERTY, never a violation).")
     c.rule += (" Every friendly text is also read by Friendly.tla, an independent reader written from the grammar in the "
                "documentation: the text itself must denote the value (calendar units exactly, the time units exactly or as a "
                "total, truncated toward zero by less than one unit of the last digit under a limited precision).")
